@@ -662,6 +662,9 @@ def classify(text, err, tree=None):
         return "compiler.starred-random-value-in-display-not-lifted"
     if tree is not None and "RandomControlFlowError" in err and random_self_scalarop(tree):
         return "vectors.scalarOperator-ignores-random-self"
+    if "'numpy.ndarray' object has no attribute" in err and "Vector" in text:
+        # consequence of a numpy.float64 sample multiplied with a Vector (the product is an ndarray)
+        return "distributions.numpy-float64-sample-times-vector-gives-ndarray"
     if "name 'bz' is not defined" in err and ".cross(" in text:
         return "vectors.cross-undefined-bz"
     if "cannot iterate through a random value" in err and any(m in text for m in (".distanceTo(", ".angleTo(", ".dot(")):
